@@ -251,6 +251,28 @@ def run(run):
             assigns = [(i, s) for i, s in enumerate(st) if s[0] == "assign" and self_field_term(s[1], "worklist")]
             ok = bool(assigns) and assigns[0][0] > loop_idx[0] and assigns[0][1][2][0] == "var" and assigns[0][1][2][1] == setname
             run.check("R3", "compute_with_max_steps|worklist-restored", ok, "after the loop the worklist must become the set of non-stabilized nodes", site)
+        # a priority leaves the worklist BEFORE its node is processed: processing may put the same node back (self-loop edge,
+        # merge into itself); a removal after update_node would delete exactly that re-insertion
+        from .lib import peval as PE0
+        for fname in ("compute_with_max_steps", "compute"):
+            g = F.fn(fname, adt="Computation")
+            nodes = PE0.Spec(F, follow_calls=True).reach(g["body"], {})
+            upd = [i for i, x in enumerate(nodes) if T.is_call(x, "update_node")]
+            rem = [i for i, x in enumerate(nodes) if T.is_call(x, ("remove", "take", "pop_last", "pop_first", "pop", "split_off")) and x.get("a") and T.self_field(x["a"][0]) == "worklist"]
+            key = "%s|dequeue-before-processing" % fname
+            if not upd:
+                run.undecided("R3", key, "update_node is not called (directly or through a helper)", F.loc(g["body"]))
+            elif not rem:
+                run.undecided("R3", key, "no removal from the worklist found", F.loc(g["body"]))
+            else:
+                late = [i for i in rem if i > min(upd)]
+                early = [i for i in rem if i < min(upd)]
+                if late and not early:
+                    run.violated("R3", key, "the priority is removed from the worklist only AFTER update_node ran: a node that re-enqueues itself while it is processed (self-loop edge) loses that entry, the solver stops with the worklist empty on a value that is not closed under its edges", F.loc(nodes[late[0]]))
+                elif late:
+                    run.violated("R3", key, "the worklist is pruned again after update_node ran: entries made by the processing can be lost", F.loc(nodes[late[0]]))
+                else:
+                    run.holds("R3", key, "", F.loc(g["body"]))
         # update_node
         f = F.fn("update_node", adt="Computation")
         sy = S.Sym(F)
